@@ -136,7 +136,8 @@ def run(chk):
         if fp.pgn != p:
             chk.violation("from-pgn", "from_pgn(p).pgn != p", dict(id=i, pgn=p), p, fp.pgn)
         if rng.random() < 0.1:
-            add(905, [[p]], [[1, fp.id, fp.pgn]], dict(from_pgn=p))
+            # tied on the PGN only: which priority / source address the identifier built for a PGN carries is not fixed by the property
+            add(905, [[p]], [[1, fp.pgn]], dict(from_pgn=p, project="pgn-only"))
         # every call hands out an identifier of its own: editing one result in place (directly or through a frame built
         # from it) must not change what a later from_pgn(p) returns
         if rng.random() < 0.25:
@@ -322,12 +323,17 @@ def run(chk):
         return
     out = core.run_model(lines)
     bad = 0
+    def model_answer(inf, o):
+        got = core.parse_out(o)
+        if inf.get("project") == "pgn-only" and got and len(got[0]) == 3:
+            got = [[got[0][0], got[0][2]]]
+        return got
     for inf, exp, o in zip(info, expect, out):
-        if core.parse_out(o) != exp:
+        if model_answer(inf, o) != exp:
             bad += 1
-            chk.tie_break("arbid", inf, core.parse_out(o), exp)
+            chk.tie_break("arbid", inf, model_answer(inf, o), exp)
     chk.ties["correspondence"] = {"suite": "arbid (cmd 901-906)", "cases": len(lines), "disagreements": bad}
-    idx = rng.sample(range(len(lines)), min(400, len(lines)))
+    idx = rng.sample([i for i in range(len(lines)) if not info[i].get("project")], min(400, len(lines)))
     shard = []
     for i in idx:
         c, groups = lines[i].split(" ", 1)
